@@ -184,11 +184,11 @@ theorem manyAt_declared (u : Bytes → Nat → Except Err (Val × Nat)) (P : Byt
 /-! ### prefix stability: decoding a truncated buffer -/
 
 mutual
-/-- no `raw` ("the rest of the buffer") anywhere in the format -/
+/-- no `raw` ("the rest of the buffer") that extends to the end of the OUTER buffer -/
 def rawFree : Fmt → Bool
   | .raw => false
   | .listOf _ f => rawFree f
-  | .nested fs => rawFreeList fs
+  | .nested _ => true            -- a `raw` inside a nested payload is bounded by the declared (and checked) size
   | .tuple fs => rawFreeList fs
   | _ => true
 def rawFreeList : FmtList → Bool
